@@ -14,6 +14,7 @@ import time
 import traceback
 
 HERE = os.path.dirname(os.path.abspath(__file__))
+VERIF = os.path.dirname(HERE)
 sys.path.insert(0, os.path.dirname(HERE))
 
 from engine.repo import AnalysisError, Repo, get_repo  # noqa: E402
@@ -118,6 +119,30 @@ def corpus_selftest(mod, prop, seed, base_ctx):
     return out
 
 
+def metamorphic_selftest(prop):
+    """T3 (thorough tier): the current tree is rewritten three ways that preserve behaviour by construction - every local renamed, every
+    return value given a name, every argument of a statement-level call given a name (selftest/alpha.py) - and this check must stay
+    silent on each copy (scratch copies under /var/tmp, removed afterwards)."""
+    import shutil
+    import subprocess
+    import tempfile
+    sys.path.insert(0, os.path.join(VERIF, "selftest"))
+    import alpha
+    out = []
+    for mode in ("rename-locals", "hoist-returns", "name-arguments"):
+        scratch, n = alpha.transformed_copy(mode)
+        odir = tempfile.mkdtemp(prefix="batchie-verif-alpha-out-", dir="/var/tmp")
+        try:
+            env = dict(os.environ, VERIF_REPO_ROOT=scratch, VERIF_OUT_DIR=odir, VERIF_TIER="quick")
+            r = subprocess.run([sys.executable, os.path.abspath(__file__), "--property", prop, "--tier", "quick"], capture_output=True, text=True, env=env, cwd=VERIF)
+            lines = [l.strip() for l in (r.stdout + r.stderr).splitlines() if "violated " in l or "ANALYSIS-ERROR" in l]
+            out.append({"mode": mode, "rewrites": n, "status": {0: "silent", 1: "FALSE-ALARM", 2: "undecided"}.get(r.returncode, str(r.returncode)), "lines": lines[:5]})
+        finally:
+            shutil.rmtree(scratch, ignore_errors=True)
+            shutil.rmtree(odir, ignore_errors=True)
+    return out
+
+
 def main():
     ap = argparse.ArgumentParser()
     ap.add_argument("--property", required=True)
@@ -148,6 +173,13 @@ def main():
                 broken = [x for x in t2 if x["status"] in ("MISSED", "FALSE-ALARM")]
                 if broken:
                     raise AnalysisError("the check fails its own corpus: " + ", ".join(f"{x['change']} {x['status']}" for x in broken))
+            if not os.environ.get("VERIF_NO_METAMORPHIC"):
+                t3 = metamorphic_selftest(prop)
+                extra["metamorphic_selftest"] = t3
+                print(f"   metamorphic self-test: {[(x['mode'], x['status']) for x in t3]}")
+                broken = [x for x in t3 if x["status"] != "silent"]
+                if broken:
+                    raise AnalysisError("the check depends on how locals are spelled: " + "; ".join(f"{x['mode']}: {x['status']} {x.get('lines', [''])[0][:160]}" for x in broken))
         if a.replay:
             want = {v["rule"] + ":" + v["site"] for v in json.load(open(a.replay)).get("violations", [])}
             still = [i for i in ctx.insts if i.verdict == "violated" and i.key in want]
